@@ -75,6 +75,12 @@ func newShared12() *shared12 {
 			append(append([]byte{}, t.bt[:bytes.IndexByte(t.bt, 0x4a)]...), 0x4a, 0x01), // date field truncated inside a struct
 			{0x72, 0x04, '[', 'i', 'n', 't', 0x91, 'N'},                                 // typed list with a null element
 			{0x45}, // unknown tag
+			{0x51}, // reference tag, ordinal missing
+			append([]byte{}, t.bt[:bytes.IndexByte(t.bt, 0x4a)+9]...),                     // struct cut right before its slice field: ReadList finds no tag
+			append(append([]byte{}, t.bt[:bytes.IndexByte(t.bt, 0x4a)+9]...), 0x51, 0x90), // slice field fed a reference to the object itself (not a list)
+			append(append([]byte{}, t.bt[:bytes.IndexByte(t.bt, 0x4a)+9]...), 0x78),       // slice field fed an empty untyped list
+			// class with a field the Go type lacks, holding an instance of a class missing from the type map
+			{'C', 0x03, 'K', '1', '2', 0x92, 0x01, 'a', 0x02, 'z', 'z', 0x60, 0x91, 'C', 0x02, 'N', 'o', 0x91, 0x01, 'q', 0x61, 0x92},
 		}
 		tmpl12 = t
 	}
@@ -150,7 +156,7 @@ var bodies12 = []body12{
 		s.spool.Return(z)
 		return r + encRes(b[:min(8, len(b))], err, "") + fmt.Sprint(len(b))
 	}, false},
-	{"decode 11 damaged inputs (own Serializer)", func(s *shared12) string {
+	{"decode 16 damaged inputs (own Serializer)", func(s *shared12) string {
 		z := hessian.NewSerializer(s.tm, s.nm)
 		var sb strings.Builder
 		for _, g := range s.garbage {
@@ -418,8 +424,8 @@ func init() {
 					}
 					if tier == "thorough" {
 						bound = 2
-						if isShort(a) && isShort(b) && a <= 1 && b <= 1 {
-							bound = 3
+						if a == 4 && b == 4 {
+							bound = 3 // the shortest body (92 points): one more preemption
 						}
 					}
 					bb := bound
